@@ -33,6 +33,9 @@ def check(ctx):
     check_window_config(ctx, rule="R2-alpha-flows-from-psll", overlap=False)
     check_dispatch(ctx, rule_prefix="R3.", want_roles=True, kaisers=(True,), roles=("L", "w", "omega"))
     check_cache_keys(ctx, rule="R4-cache-key", about=("window",))
+    # the requested side-lobe level reaches the analyzer through the one-call functions too (psll / win forwarded, not dropped or defaulted)
+    from ..dispatch import check_wrappers
+    check_wrappers(ctx, rule="R7-requested-window-forwarded", probes=("psll", "win"))
     from ..kernels import check_inputs_untouched
     check_inputs_untouched(ctx, rule="R6-record-untouched")        # a step left in the record by an earlier bin leaks at every later bin
     from ..dtypes import check_dtypes
